@@ -138,12 +138,20 @@ def _check_consistent(case):
     P = nm(p)
     fails, evals = [], 0
 
-    def one(cons_rankings, tag):
+    def one(cons_rankings, tag, with_dataset=False):
         nonlocal evals
         evals += 1
         op = OrderedPartition([set(Element(x) for x in g) for g in P])
-        cons = Consensus(consensus_rankings=[Ranking([set(b) for b in r]) for r in cons_rankings])
-        n_cons = len(set(x for r in cons_rankings for b in r for x in b))
+        if with_dataset:
+            # the consensus is attached to the dataset it answers (over the partition's universe): its number of
+            # elements is then the dataset's, also when its first ranking does not hold all of them
+            from corankco.dataset import Dataset
+            ds = Dataset([Ranking([set(g) for g in P])])
+            cons = Consensus(consensus_rankings=[Ranking([set(b) for b in r]) for r in cons_rankings], dataset=ds)
+            n_cons = sum(len(g) for g in P)
+        else:
+            cons = Consensus(consensus_rankings=[Ranking([set(b) for b in r]) for r in cons_rankings])
+            n_cons = len(set(x for r in cons_rankings for b in r for x in b))
         expect = _expected_consistent(P, cons_rankings[0], n_cons)
         try:
             got, hung = _guarded(lambda: op.consistent_with(cons))
@@ -152,9 +160,14 @@ def _check_consistent(case):
                           "detail": {"partition": P, "consensus": cons_rankings, "exception": type(e).__name__,
                                      "message": str(e)[:200], "expected": expect, "pairs": tag}})
             return
+        lacks = with_dataset and len(P) == 1 and \
+            len(set(x for b in cons_rankings[0] for x in b)) < sum(len(g) for g in P)
         if hung:
             fails.append({"clause": "C07.consistent", "site": SITE_CW + " does not terminate",
                           "detail": {"partition": P, "consensus": cons_rankings, "expected": expect, "pairs": tag}})
+        elif lacks:
+            pass        # one group and a ranking that lacks one of its elements: the stated relation is vacuous, an
+            #             answer (either one) is all that is required
         elif got is not expect:
             fails.append({"clause": "C07.consistent", "site": SITE_CW,
                           "detail": {"partition": P, "consensus": cons_rankings, "got": got, "expected": expect,
@@ -169,6 +182,12 @@ def _check_consistent(case):
     for c in list(O.ordered_partitions(list(range(k))))[:: max(1, k)]:
         one([nm(c), nm(c)[::-1]], "two rankings, first decides")
         one([nm(p), nm(c)], "two rankings, first decides")
+    # consensus attached to its dataset: complete rankings, and rankings that lack an element of the dataset
+    for c in list(O.ordered_partitions(list(range(k))))[:: max(1, k - 1)]:
+        one([nm(c)], "consensus attached to its dataset", with_dataset=True)
+    if k >= 2:
+        for c in O.ordered_partitions(list(range(k - 1))):
+            one([nm(c)], "consensus attached to its dataset, ranking lacks an element", with_dataset=True)
     if k <= 3:
         # larger universe (one more element), smaller universe (one fewer)
         for c in O.ordered_partitions(list(range(k + 1))):
